@@ -1467,6 +1467,123 @@ func runBucket(c *core.Ctx, r *rand.Rand, blockSize int, keys [][]byte, vals []u
 	c.Branch("bucket-merged")
 }
 
+// mergerSessionCase drives ONE index/v1 merger instance through several Merge calls for different
+// bucket ids, as a kv compaction job does (one merger per job, one Merge per key of the input
+// files). The key sets of the buckets are disjoint or overlapping (the same key may live in two
+// buckets: they are independent dictionaries). Every output is compared with the union of the
+// inputs of ITS OWN call only.
+func mergerSessionCase(c *core.Ctx, r *rand.Rand, tier string) {
+	w := &memWriter{values: map[uint32][][]byte{}}
+	mg, err := v1.NewIndexKVMerger(&memFlusher{w: w})
+	if err != nil {
+		c.Note("merger: " + err.Error())
+		return
+	}
+	mg.Init(nil)
+	base, shape := genKeys(r, tier, false)
+	c.Branch("session-keys-" + shape)
+	if len(base) > 0 && len(base[0]) == 0 {
+		base = base[1:]
+	}
+	for len(base) < 6 {
+		base = append(base, []byte(fmt.Sprintf("zz-extra-%04d", len(base))))
+	}
+	overlap := r.Intn(2) == 0
+	if overlap {
+		c.Branch("session-overlapping-buckets")
+	} else {
+		c.Branch("session-disjoint-buckets")
+	}
+	ncalls := 2 + r.Intn(3)
+	perm := r.Perm(len(base))
+	for call := 0; call < ncalls; call++ {
+		bucketID := uint32(10 + call*7)
+		// the keys of this bucket
+		var idx []int
+		if overlap {
+			for _, i := range perm {
+				if r.Intn(2) == 0 {
+					idx = append(idx, i)
+				}
+			}
+			if len(idx) == 0 {
+				idx = []int{perm[0]}
+			}
+		} else {
+			lo, hi := call*len(perm)/ncalls, (call+1)*len(perm)/ncalls
+			idx = perm[lo:hi]
+			if len(idx) == 0 {
+				continue
+			}
+		}
+		vals := genVals(r, len(base))
+		ngroups := 1 + r.Intn(3)
+		groups := make([][]int, ngroups)
+		for _, i := range idx {
+			g := r.Intn(ngroups)
+			groups[g] = append(groups[g], i)
+		}
+		all := map[string]uint32{}
+		var sb strings.Builder
+		sb.WriteString("bucket 65535")
+		var blocks [][]byte
+		okIn := true
+		for _, g := range groups {
+			if len(g) == 0 {
+				continue
+			}
+			sb.WriteString(" |")
+			ks := make([][]byte, len(g))
+			ids := make([]uint32, len(g))
+			for j, i := range g {
+				fmt.Fprintf(&sb, " %s:%d", hx(base[i]), vals[i])
+				all[string(base[i])] = vals[i]
+				ks[j], ids[j] = clone(base[i]), vals[i]
+			}
+			var buf bytes.Buffer
+			if err := model.NewTrieBucketBuilder(65535, &buf).Write(ks, ids); err != nil {
+				okIn = false
+			}
+			blocks = append(blocks, clone(buf.Bytes()))
+		}
+		if !okIn {
+			c.Note("input flush failed")
+			return
+		}
+		c.Op(sb.String(), fmt.Sprintf("ok tries=%d", len(blockSizes(blocks))))
+		var merged *model.TrieBucket
+		var out [][]byte
+		c.Guard("bmerge 65535", func() string {
+			delete(w.values, bucketID)
+			if err := mg.Merge(bucketID, blocks); err != nil {
+				return "merge-error"
+			}
+			out = w.values[bucketID]
+			b, err := v1.NewIndexKVReader(&memSnapshot{values: w.values}).GetBucket(bucketID)
+			if err != nil || b == nil {
+				return "read-error"
+			}
+			merged = b
+			return fmt.Sprintf("ok tries=%d", len(blockSizes(out)))
+		})
+		if merged == nil {
+			c.Fail("merger-session-call-failed", fmt.Sprintf("Merge call %d (bucket %d) of one merger instance failed", call+1, bucketID))
+			return
+		}
+		c.NonTrivial()
+		c.Op("bsizes", showInts(blockSizes(out)))
+		s := newBucketSubject(c, merged, all, fmt.Sprintf("session-call-%d", call+1), out)
+		probes := genProbes(r, base, 8)
+		s.queries(r, probes)
+		// the same statement under a key of its own: the output holds the pairs of this call only
+		vs := merged.GetValues()
+		if len(vs) != len(all) {
+			c.Fail("merger-output-depends-on-previous-merges", fmt.Sprintf("Merge call %d (bucket %d) of one merger instance returned %d pairs, its inputs hold %d", call+1, bucketID, len(vs), len(all)))
+		}
+		c.Branch("session-merge-call")
+	}
+}
+
 // ---------------------------------------------------------------- index kv store on a real kv store
 
 var kvSeq int
@@ -1835,6 +1952,8 @@ func (area) Run(c *core.Ctx) error {
 		switch {
 		case i%10 == 7:
 			bitvecCase(c, r)
+		case i%30 == 8:
+			mergerSessionCase(c, r, c.Tier)
 		case i%10 == 3 || i%10 == 8:
 			bucketCase(c, r, c.Tier, i%10 == 3)
 		case i%40 == 19 || i%40 == 29:
